@@ -107,6 +107,36 @@ func resolvePlace(root reflect.Value, path []editStep) (reflect.Value, bool) {
 	return cur, true
 }
 
+// coldCopy: the value as a caller would write it down from its exported fields: a new struct whose exported fields are assigned from
+// v's (pointers to structs that themselves have exported fields are written down afresh too); unexported fields stay zero.  Only for
+// types ALL of whose fields are exported (otherwise the unexported part is state, not memo).
+func coldCopy(v reflect.Value, depth int) (reflect.Value, bool) {
+	if v.Kind() != reflect.Pointer || v.IsNil() || v.Elem().Kind() != reflect.Struct {
+		return reflect.Value{}, false
+	}
+	t := v.Elem().Type()
+	if t.NumField() == 0 {
+		return reflect.Value{}, false
+	}
+	for i := 0; i < t.NumField(); i++ {
+		if !t.Field(i).IsExported() {
+			return reflect.Value{}, false
+		}
+	}
+	n := reflect.New(t)
+	for i := 0; i < t.NumField(); i++ {
+		fv := v.Elem().Field(i)
+		if depth < 2 && fv.Kind() == reflect.Pointer && !fv.IsNil() && fv.Elem().Kind() == reflect.Struct {
+			if c, ok := coldCopy(fv, depth+1); ok {
+				n.Elem().Field(i).Set(c)
+				continue
+			}
+		}
+		n.Elem().Field(i).Set(fv)
+	}
+	return n, true
+}
+
 func renderAllMethods(v reflect.Value) map[string]string {
 	out := map[string]string{}
 	for _, i := range readOnlyMethods(v) {
@@ -216,6 +246,15 @@ func init() {
 			for name, x := range r2 {
 				if r1[name] != x && len(stale) < 12 {
 					stale = append(stale, map[string]any{"place": names[k], "method": name})
+				}
+			}
+			// ... and like a value written down afresh from the exported fields it has now (nothing unexported carried over)
+			if cc, okc := coldCopy(v1, 0); okc {
+				rc := renderAllMethods(cc)
+				for name, x := range rc {
+					if r1[name] != x && len(stale) < 12 {
+						stale = append(stale, map[string]any{"place": names[k] + " (against a fresh literal)", "method": name})
+					}
 				}
 			}
 		}
